@@ -9,7 +9,7 @@ from ..common import q2s, run_driver, seed_rng, silence_stdout
 from ..meshgen import random_op
 from ..meshlib import PyMesh, show_cell
 
-PROP_MODS = ['Stbem.Props.C09']
+PROP_MODS = ['Stbem.Props.C09', 'Stbem.Props.EstimatorTie']
 LEVEL = 'proof'
 RULE = ('correspondence (exact): the REAL ErrorEstimator.sobolev_space / sobolev_time / estimate_sobolev (serial, and '
         'the pool path with mp.cpu_count patched to 1, 2, 5, 16) and weighted_l2 / estimate_weighted_l2 are run on real '
@@ -19,7 +19,10 @@ RULE = ('correspondence (exact): the REAL ErrorEstimator.sobolev_space / sobolev
         'gamma), level B keeps the real __integrate_* bodies with an exact dyadic outer rule and replaces '
         'Slobodeckij.seminorm_h_1_2 / _pw / seminorm_h_1_4 by codes of (Gauss point, interval ends, pieces, routine); every '
         'ips list, every fsum and the assembled array are compared textually with the Lean model on the same mesh dump '
-        '(also permuted, truncated and duplicated element lists, incl. the KeyError). search (floats, real seminorms, '
+        '(also permuted, truncated and duplicated element lists, incl. the KeyError); every such request is answered a second time by '
+        'the definitions REGENERATED from src/error_estimator.py (translate/estimatorgen.py -> Gen/EstimatorGen.lean, driver `gee`: '
+        'sobolev_space / sobolev_time / estimate_sobolev serial + pool / weighted_l2 / estimate_weighted_l2 statement by statement, '
+        'level B through the generated __integrate_h_1_2 / __integrate_h_1_4). search (floats, real seminorms, '
         'independent of the model): every patch value against an independent evaluation of the double integrals on the '
         'geometric union patch (own Gauss-Legendre / Duffy quadrature through numpy.leggauss), weighted L2 against direct '
         'Gauss integration, seam pairs against their rotated / reflected interior twins, shortcut against per-element '
@@ -28,6 +31,13 @@ RULE = ('correspondence (exact): the REAL ErrorEstimator.sobolev_space / sobolev
 TRUSTED = [
     'Lean 4.33 kernel; axioms propext, Classical.choice, Quot.sound only',
     'harness/checks/C09.py (token routines, mesh dump) and Driver/EstimatorCmd.lean (same hash arithmetic, parser)',
+    'the logic of src/error_estimator.py is regenerated from the source on every run (translate/estimatorgen.py -> '
+    'Gen/EstimatorGen.lean) and proved equal to the hand-written model for all inputs, errors included (Props/EstimatorTie.lean: '
+    'gen_integrate_h_1_2_eq, gen_integrate_h_1_4_eq, gen_sobolev_space_eq, gen_sobolev_time_eq, gen_weighted_l2_eq, '
+    'gen_estimate_sobolev_serial_eq / _pool_eq, gen_estimate_weighted_l2_*_eq); trusted there: the object model at the top of the '
+    'generated file (element = cell of its immutable fields, edges_axis / neighbour_elements = geometric neighbour lists, '
+    '__init__ field definitions and Element.edges_axis checked textually, cache_dir = None, closures = their captured values), '
+    'executed against the real class here',
     'the neighbour lists of the model are the geometric ones of C10 (tied to Edge.neighbour_elements() by C10 and again '
     'here through the order of every ips list)',
     'multiprocessing.Pool.map returns results in argument order (modelled as an order-preserving map)',
@@ -38,6 +48,49 @@ ASSUMPTIONS = ['binary64 coordinates are read as the rationals they denote; toke
                'np.allclose(gamma(a), gamma(b)) is modelled as: a = b or {a, b} = {0, L}']
 
 HASH_P = 68719476731
+
+
+def translate(res):
+    """Regenerates lean/Stbem/Gen/EstimatorGen.lean (the logic of src/error_estimator.py, statement by statement) from the
+    working tree; a construct the translator does not understand raises (= broken obligation, the previous file is kept).
+    Gen/QuadGen.lean (imported by it) is regenerated first."""
+    import os
+    import subprocess
+    import sys
+    from ..common import LEAN, REPO, VERIF, lake_lock, write_if_changed
+    from .C15 import translate_quadgen
+    translate_quadgen(res)
+    sys.path.insert(0, os.path.join(VERIF, 'translate'))
+    import estimatorgen
+
+    def compiles(text):
+        tmp = os.path.join(LEAN, '.lake', 'estimatorgen_check_%d.lean' % os.getpid())
+        with open(tmp, 'w') as fh:
+            fh.write(text)
+        try:
+            with lake_lock():
+                p = subprocess.run(['lake', 'build', 'Stbem.Gen.QuadGen', 'Stbem.Model.Mesh'], cwd=LEAN, stdout=subprocess.PIPE,
+                                   stderr=subprocess.STDOUT, text=True, timeout=600)
+                if p.returncode == 0:
+                    p = subprocess.run(['lake', 'env', 'lean', tmp], cwd=LEAN, stdout=subprocess.PIPE, stderr=subprocess.STDOUT,
+                                       text=True, timeout=600)
+        finally:
+            os.unlink(tmp)
+        return None if p.returncode == 0 else p.stdout[-2000:]
+    stats = estimatorgen.generate(REPO, os.path.join(LEAN, 'Stbem', 'Gen'), write_if_changed, compiles)
+    res.bump('generated_estimator_file_changed', stats.get('changed', 0))
+    for k in ('methods', 'module_functions', 'methods_not_translated', 'assignments', 'augmented_assignments', 'appends', 'array_stores',
+              'for_loops', 'branches', 'branch_bound_variables', 'none_tests', 'asserts', 'returns', 'closures', 'seminorm_calls',
+              'private_method_calls', 'method_calls', 'pool_maps', 'pool_blocks', 'global_stores', 'global_declarations',
+              'comprehensions', 'dict_lookups', 'list_reads', 'identity_tests', 'vertex_reads', 'element_attribute_reads',
+              'edge_walks', 'neighbour_lists', 'numpy_calls', 'array_ops', 'residual_calls', 'star_arguments',
+              'cache_blocks_not_modelled'):
+        res.bump('translated_estimator_' + k, stats.get(k, 0))
+    res.count(('translated', 'error_estimator.py'), True, n=stats.get('assignments', 0) + stats.get('returns', 0))
+    return stats
+
+
+GEN_TWINS = ('space', 'time', 'est', 'pool', 'direct', 'wl2')
 
 
 def report(res, key, data):
@@ -294,6 +347,13 @@ def correspond(res, tier):
         lines.append(line)
         expect.append(want)
         where.append(label)
+        parts = line.split(' ', 2)
+        if parts[0] == 'ee' and parts[1] in GEN_TWINS:
+            # the same request answered by the definitions regenerated from src/error_estimator.py
+            lines.append('g' + line)
+            expect.append(want)
+            where.append(label + ' [generated twin]')
+            res.bump('gen_twin_' + parts[1])
 
     suite = mesh_suite(rng, tier)
     pools_left = 6 if tier == 'quick' else 20
@@ -415,6 +475,14 @@ def corr_weighted(res, rng, mesh, elems, add, label, mi, tier):
         res.count(('wl2', mi, e.glob_idx), True)
         if (row[0], row[1]) != (v[0], v[1]):
             report(res, 'C09:estimate_weighted_l2-differs-from-weighted_l2:exact', dict(mesh=label, elem=e.glob_idx))
+    # estimate_weighted_l2 (serial, and the pool path when it was run) against the generated function
+    ids = ','.join(str(e.glob_idx) for e in elems)
+    enc = (','.join(q2s(x) for x in g.points[0]), ','.join(q2s(x) for x in g.points[1]), ','.join(q2s(x) for x in g.weights), ps)
+    add('gee wl2s %s %s %s %s %s 0' % ((ids, ) + enc), show_pairs(arr), label)
+    res.count(('wl2s', mi, 0), True)
+    if arr_mp is not None:
+        add('gee wl2s %s %s %s %s %s 1' % ((ids, ) + enc), show_pairs(arr_mp), label)
+        res.count(('wl2s', mi, 1), True)
     if arr_mp is not None and not all(a[0] == b[0] and a[1] == b[1] for a, b in zip(arr, arr_mp)):
         report(res, 'C09:weighted-l2-pool-differs-from-serial:exact', dict(mesh=label))
 
